@@ -205,3 +205,24 @@ func CorpusSpecs(maxSize int) []SpecCase {
 	}
 	return out
 }
+
+// IntegerFormatsDoc is a fixed document with one required query and one required header parameter
+// per integer format (and the format-less integer): the directed family "integer just outside the
+// range of the declared format" of C15 is complete on it in every run.
+func IntegerFormatsDoc() specgen.Doc {
+	var d specgen.Doc
+	formats := []string{"", "int8", "int16", "int32", "int64", "uint8", "uint16", "uint32", "uint64", "uint", "int"}
+	for i, in := range []string{"query", "header"} {
+		op := specgen.Operation{ID: fmt.Sprintf("fmt%d", i), Method: "GET", Path: fmt.Sprintf("/fmt%d", i),
+			Responses: []specgen.Response{{Code: "200"}}}
+		for _, f := range formats {
+			name := "p" + f
+			if in == "header" {
+				name = "X-P" + f
+			}
+			op.Params = append(op.Params, specgen.Param{Name: name, In: in, Required: true, Schema: &specgen.Schema{Type: "integer", Format: f}})
+		}
+		d.Ops = append(d.Ops, op)
+	}
+	return d
+}
